@@ -9,7 +9,11 @@ pipeline.Validate() (implrun diagtree: the unflattened entity tree) is checked b
 prop_C18_diag (file, range inside file and construct, covered text = value, code/severity), the
 list and the error text are checked for duplicates (prop_C18_list, prop_C18_text), and the model
 (Model/Diag.v: ranges of the Linker diagnostics, GetDiagnosticsWithSeverity + DiagnosticsToError)
-is compared with the implementation (ranges per receiver, error text byte for byte)."""
+is compared with the implementation (ranges per receiver, error text byte for byte).
+
+Validate() is called ROUNDS times on the same pipeline (implrun diagtree "rounds"): no diagnostic twice in the list
+of any call, and every later call reports the diagnostics of the first one (prop_C18_rounds).  Controllers without a
+@Tag (a warning of the controller itself, about its own comment) stand in any file of a project."""
 import concurrent.futures
 import copy
 import json
@@ -54,7 +58,11 @@ KNOWN_CLASSES = {"entity-per-error-diagnostic": "an entity with k error diagnost
                                              "has diagnostics gets a second entity node for each route conflict",
                  "repeated-route-conflict": "a route that conflicts with several others gets the same route-conflict "
                                             "warning once per conflict (the message does not name the other route)",
-                 "void-return-range": "the diagnostic about a method that returns nothing has the zero range 0:0-0:0"}
+                 "void-return-range": "the diagnostic about a method that returns nothing has the zero range 0:0-0:0",
+                 "undocumented-controller-position": "the missing-@Tag warning of a controller that has no comment at all "
+                                                     "names no file (FilePath \"\") and has the zero range 0:0-0:0"}
+
+ROUNDS = 3          # Validate() calls on one pipeline
 
 MB = ["é", "日本", "ünï", "→ ok", "Ω"]
 
@@ -108,6 +116,20 @@ def twin_of(rng, r, nfiles):
     return t
 
 
+def conflict_of(rng, r, nfiles):
+    """The same annotated method a second time under the SAME route (other name, other place): the two collide, and
+    each side has whatever diagnostics the method has of its own."""
+    t = copy.deepcopy(r)
+    t["name"] = r["name"] + "Cf"
+    t["indent"] = rng.choice(["", "\t", "  "])
+    t["gap"] = rng.choice([1, 2])
+    t["lead"] = [rng.choice(["collides", "collides " + rng.choice(MB)]) for _ in range(rng.choice([0, 1]))]
+    t["file"] = rng.randrange(nfiles)
+    t["pert"] = list(r.get("pert", [])) + ["conflict"]
+    t["conflict_of"] = r["name"]
+    return t
+
+
 def make_projects(rng, routes, per=24):
     """Projects with several files and several controllers per file."""
     projects = []
@@ -132,11 +154,20 @@ def make_projects(rng, routes, per=24):
                 tw = twin_of(rng, r2, nfiles)
                 if tw is not None:
                     rs.append(tw)
+        # (drawn after the loops: the layouts above stay what they were)
+        cands = [r for r in rs if r.get("pert") and not r.get("twin_of")]
+        for r in rng.sample(cands, min(len(cands), rng.choice([0, 1, 2]))):
+            rs.append(conflict_of(rng, r, nfiles))
+        for c in ctls:
+            if rng.random() < 0.4:
+                c["tag"] = None        # no @Tag: controller-missing-tag, about the controller's own comment (it has @Route)
+            if rng.random() < 0.3:
+                c["file"] = rng.randrange(nfiles)
         projects.append({"controllers": ctls, "routes": rs})
     return projects
 
 
-def deliberate_projects():
+def deliberate_projects(undocumented=False):
     """Small projects that show every recorded class on each run."""
     A = lambda k, v, al=None: {"k": k, "v": v, "alias": ({"s": al} if al is not None else None)}
     mk = lambda n, attrs, ps, rets: {"name": n, "prefix": "/c", "ctl": "Ctl0", "attrs": attrs, "params": ps, "rets": rets,
@@ -182,7 +213,28 @@ def deliberate_projects():
                                                                            "cind": "    "}),
                      wr("WrapFine", ["RLocalStruct", "RError"], {"open": True, "seps": [True], "close": True}),
                      wr("OneLine", ["RForeignStruct", "RPlain"], {"open": False, "seps": [False], "close": False})]}
-    return [p1, p2, p3, p4, p5]
+    # controllers without a @Tag in the first and the middle one of three files, a tagged one in the last file; two
+    # controllers in one file; a method with a diagnostic of its own on each side of a route conflict and one without
+    ct = lambda n, pre, fi, **kw: dict({"name": n, "prefix": pre, "file": fi}, **kw)
+    mc = lambda n, ctl, pre, attrs, fi: dict(mk(n, attrs, [], ["RError"]), ctl=ctl, prefix=pre, file=fi)
+    p6 = {"controllers": [ct("CtlA", "/a", 0, tag=None, lead=["first file " + MB[0]]), ct("CtlB", "/b", 1, tag=None, indent="\t"),
+                          ct("CtlC", "/b2", 1, gap=2), ct("CtlD", "/d", 2), ct("CtlE", "/e", 0, tag=None, gap=3)],
+          "routes": [mc("ConfOwn", "CtlA", "/a", [A("Method", "GET"), A("Route", "/x/{v}"), A("Query", "zz")], 0),
+                     mc("ConfBare", "CtlA", "/a", [A("Method", "GET"), A("Route", "/x/latest")], 2),
+                     mc("ConfOwn2", "CtlB", "/b", [A("Method", "POST"), A("Route", "/y"), A("Header", "hh")], 1),
+                     mc("ConfOwn3", "CtlB", "/b", [A("Method", "POST"), A("Route", "/y"), A("Query", "qq")], 0),
+                     mc("Fine", "CtlC", "/b2", [A("Method", "GET"), A("Route", "/fine")], 1),
+                     mc("FineD", "CtlD", "/d", [A("Method", "GET"), A("Route", "/fine")], 2),
+                     mc("FineE", "CtlE", "/e", [A("Method", "GET"), A("Route", "/fine")], 0)]}
+    out = [p1, p2, p3, p4, p5, p6]
+    if undocumented:
+        # a controller without any comment (no @Tag, no @Route, no free text), next to documented ones
+        p7 = {"controllers": [ct("Bare", "", 0, tag=None), ct("CtlT", "/t", 1), ct("CtlU", "/u", 1, tag=None)],
+              "routes": [mc("OfBare", "Bare", "", [A("Method", "GET"), A("Route", "/bare")], 0),
+                         mc("OfT", "CtlT", "/t", [A("Method", "GET"), A("Route", "/t")], 1),
+                         mc("OfU", "CtlU", "/u", [A("Method", "GET"), A("Route", "/u")], 0)]}
+        out.append(p7)
+    return out
 
 
 # ------------------------------------------------------------------ running
@@ -205,7 +257,7 @@ def run_projects(projects, workdir):
     for k, pr in enumerate(projects):
         root = os.path.join(workdir, "p%d" % k)
         layouts.append(c18layout.render_lproject(pr, root, "verifproj/p%d" % k))
-        jobs.append({"dir": root, "config": "gleece.json"})
+        jobs.append({"dir": root, "config": "gleece.json", "rounds": ROUNDS})
     with concurrent.futures.ThreadPoolExecutor(max_workers=14) as ex:
         outs = list(ex.map(run_diagtree, jobs))
     return outs, layouts
@@ -283,14 +335,16 @@ def region_of(d, lay, file_lines):
     return (0, 0, 0, 0)
 
 
-def build_odiags(out, layout):
-    """Per project: list of dicts with everything prop_C18_diag needs."""
+def build_odiags(out, layout, tree=None):
+    """Per project: list of dicts with everything prop_C18_diag needs (of the first Validate(), or of `tree`)."""
     files = {}
     res = []
-    for parent, e, _ in flatten(out.get("tree") or []):
+    for parent, e, _ in flatten((out.get("tree") or []) if tree is None else tree):
         lay = layout.get((e["kind"], e["name"]))
         for d in e["diags"]:
             rec = {"entity": (e["kind"], e["name"]), "d": d}
+            if lay is not None and e["kind"] == "Controller" and not lay.get("doc"):
+                rec["undocumented"] = True
             ok = lay is not None and os.path.exists(d["file"]) and os.path.samefile(d["file"], lay["path"])
             path = d["file"] if os.path.exists(d["file"]) else None
             if path and path not in files:
@@ -347,6 +401,17 @@ def coq_odiag(rec):
         "None" if verb is None else "(Some %s)" % coq_bytes(verb))
 
 
+NO_SUGGESTION = lambda m: re.sub(r"\. Did you mean '[^']*'\?", "", m)
+
+
+def coq_odiag_id(rec):
+    """The identity of a diagnostic (what odiag_same compares), the suggestion taken out of the message."""
+    d = rec["d"]
+    msg = (d["file"] + "|" + rec["entity"][0] + " " + rec["entity"][1] + "|" + NO_SUGGESTION(d["message"])).encode()
+    return "(mkOl %d %d %s %s)" % (c10.CODE_N.get(d["code"], 99), d["severity"],
+                                   coq_rng((d["start_line"], d["start_col"], d["end_line"], d["end_col"])), coq_bytes(msg))
+
+
 SEVS = {1: "EError", 2: "EWarning", 3: "EInfo", 4: "EHint"}
 
 
@@ -371,6 +436,7 @@ Definition mkRd c sv f l co m := {| rd_code := c; rd_sev := sv; rd_file := f; rd
 Definition mkOd c sv g m ok n l1 l2 reg v vb :=
   {| od_code := c; od_sev := sv; od_range := g; od_msg := m; od_file_ok := ok; od_nlines := n; od_len_sl := l1;
      od_len_el := l2; od_region := reg; od_value := v; od_verb := vb |}.
+Definition mkOl c sv g m := mkOd c sv g m true 0 0 0 (mkG 0 0 0 0) None None.
 """
 
 
@@ -387,6 +453,14 @@ def evaluate(projects, outs, layouts, tag):
             od = build_odiags(out, lay)
             tree = out.get("tree") or []
             body += "Definition od_%d : list odiag := [\n%s].\n" % (k, ";\n".join(coq_odiag(x) for x in od))
+            # the rounds are compared on what identifies a diagnostic (entity, file, code, severity, range, message
+            # without the "Did you mean" suggestion, which follows Go map iteration order from call to call)
+            later = [build_odiags(out, lay, t) for t in (out.get("later_rounds") or [])]
+            body += "Definition first_%d : list odiag := [\n%s].\n" % (k, ";\n".join(coq_odiag_id(x) for x in od))
+            body += "Definition later_%d : list (list odiag) := %s.\n" % (
+                k, coq_list(["[\n%s]" % ";\n".join(coq_odiag_id(x) for x in l) for l in later]))
+            body += ("Definition r_%d := Eval vm_compute in [bool_n (prop_C18_rounds first_%d later_%d); "
+                     "bool_n (prop_C18_rounds_nodup later_%d)].\nPrint r_%d.\n") % ((k,) * 5)
             body += "Definition tree_%d : list entity := %s.\n" % (k, coq_list([coq_entity(e) for e in tree]))
             body += "Definition text_%d : str := %s.\n" % (k, coq_bytes((out.get("error_text") or "").encode()))
             # receivers: route, layout, implementation (code, severity, range) without the route conflicts
@@ -410,11 +484,12 @@ def evaluate(projects, outs, layouts, tag):
                      "Definition c_%d := Eval vm_compute in map (fun x => let '(r, ly, im) := x in "
                      "bool_n (match validate r with VDiags _ => mset_eqb ranged_eqb (ranged r ly) im | _ => true end)) recv_%d.\n"
                      "Print c_%d.\n") % ((k,) * 13)
-            names.append((k, od))
+            names.append((k, od, later))
         o = run_coq_file(PROP, "%s_%d" % (tag, lo), body)
-        for k, od in names:
+        for k, od, later in names:
             results.append({"oracle": parse_nat_list(o, "o_%d" % k), "lists": parse_nat_list(o, "l_%d" % k),
-                            "corr": parse_nat_list(o, "c_%d" % k), "od": od})
+                            "corr": parse_nat_list(o, "c_%d" % k), "od": od, "rounds": parse_nat_list(o, "r_%d" % k),
+                            "later": later})
     return results
 
 
@@ -449,6 +524,61 @@ def classify_tree(tree):
     return cls
 
 
+def od_key(rec):
+    d = rec["d"]
+    return (rec["entity"], d["code"], d["severity"], d["file"], d["start_line"], d["start_col"], d["end_line"], d["end_col"],
+            NO_SUGGESTION(d["message"]))
+
+
+def is_undocumented(rec, o):
+    """The missing-@Tag warning of a controller without any comment, without file and position (recorded class)."""
+    d = rec["d"]
+    return (o == 1 and d["code"] == "controller-missing-tag" and d["file"] == "" and rec.get("undocumented")
+            and (d["start_line"], d["start_col"], d["end_line"], d["end_col"]) == (0, 0, 0, 0))
+
+
+def round_failures(out, rs):
+    """[(rec or None, clause)] of the later Validate() calls on the same pipeline: a round that does not report what
+    the first one did (names a diagnostic whose number of occurrences differs), a round with a diagnostic twice that
+    the recorded class repeated-route-conflict does not explain."""
+    fails = []
+    if len(out.get("later_rounds") or []) != ROUNDS - 1:
+        fails.append((None, "a later Validate() on the same pipeline failed: %s" % out.get("validate_again_err")))
+        return fails
+    same, nodup = rs["rounds"]
+    if not same:
+        first = {}
+        for rec in rs["od"]:
+            first[od_key(rec)] = first.get(od_key(rec), 0) + 1
+        rec_ = None
+        for n, l in enumerate(rs["later"]):
+            cnt = {}
+            for rec in l:
+                cnt[od_key(rec)] = cnt.get(od_key(rec), 0) + 1
+            for rec in l + rs["od"]:
+                if cnt.get(od_key(rec), 0) != first.get(od_key(rec), 0):
+                    rec_ = dict(rec, round=n + 2, times_in_this_round=cnt.get(od_key(rec), 0),
+                                times_in_first_round=first.get(od_key(rec), 0))
+                    break
+            if rec_:
+                break
+        fails.append((rec_, "a later Validate() on the same pipeline reports other diagnostics than the first"))
+    if not nodup and not all("repeated-route-conflict" in classify_tree(t) or
+                             len(set(od_key(x) for x in l)) == len(l)
+                             for t, l in zip(out["later_rounds"], rs["later"])):
+        fails.append((None, "duplicate diagnostic in the list of a later Validate()"))
+    return fails
+
+
+def has_conflict_with_own(out):
+    """Some receiver has a route conflict and a diagnostic of its own (in one entity or in sibling entities)."""
+    codes = {}
+    for parent, e, _ in flatten(out.get("tree") or []):
+        if e["kind"] == "Receiver":
+            codes.setdefault((parent, e["name"]), set()).update(d["code"] for d in e["diags"])
+    return any("route-conflict" in c and len(c) > 1 for c in codes.values())
+
+
 def clause_of(rec, o):
     """Which clause of the oracle failed: a list/text duplicate, or prop_C18_diag number o on a diagnostic code."""
     if isinstance(o, str):
@@ -467,7 +597,10 @@ def project_failures(pr, out, rs):
         if (d["code"] == "receiver-return-values-invalid-signature" and "found void" in d["message"]
                 and (d["start_line"], d["start_col"], d["end_line"], d["end_col"]) == (0, 0, 0, 0) and o == 4):
             continue
+        if is_undocumented(rec, o):
+            continue
         fails.append((rec, o))
+    fails += round_failures(out, rs)
     list_ok, text_ok, _ = rs["lists"]
     if not list_ok and "repeated-route-conflict" not in cls:
         fails.append((None, "duplicate diagnostic in the list"))
@@ -560,7 +693,10 @@ def main():
         # a route whose validation ends in a Go error yields no diagnostics and takes the project with it
         pred = c10.coq_eval_predict(routes, [r["prefix"] for r in routes], "pred")
         routes = [r for r, p_ in zip(routes, pred) if p_ != 1]
-        projects = make_projects(rng, routes) + deliberate_projects()
+        # the controller without any comment is generated once its class is recorded (or on request): see the
+        # class undocumented-controller-position
+        undoc = "undocumented-controller-position" in known or bool(os.environ.get("VERIF_C18_UNDOCUMENTED"))
+        projects = make_projects(rng, routes) + deliberate_projects(undoc)
 
     outs, layouts = run_projects(projects, workdir)
     broken = [k for k, o in enumerate(outs) if "tree" not in o]
@@ -600,8 +736,12 @@ def main():
                     and (d["start_line"], d["start_col"], d["end_line"], d["end_col"]) == (0, 0, 0, 0) and o == 4)
             if void:
                 classes_seen.setdefault("void-return-range", []).append((k, d["message"]))
+            elif is_undocumented(rec, o):
+                classes_seen.setdefault("undocumented-controller-position", []).append((k, d["message"]))
             else:
                 fails.append((k, rec, o))
+        for rec, cl in round_failures(out, rs):
+            fails.append((k, rec, cl))
         list_ok, text_ok, text_same = rs["lists"]
         if not list_ok:
             if "repeated-route-conflict" in cls:
@@ -653,7 +793,9 @@ def main():
     for (k, rec, o) in fails[:3]:
         pr = shrink_project(projects[k], clause_of(rec, o), workdir + "_shr") if k < len(projects) else projects[k]
         res.violation({"kind": "property-fails-on-implementation", "input": strip_project(pr),
-                       "diagnostic": rec["d"] if rec else None, "oracle": o,
+                       "diagnostic": (dict(rec["d"], **{x: rec[x] for x in ("round", "times_in_this_round", "times_in_first_round")
+                                                          if x in rec}) if rec else None), "oracle": o,
+                       "validate_calls_on_one_pipeline": ROUNDS,
                        "claim": "prop_C18_diag: 1 file, 2 start after end, 3 outside the file, 4 outside the construct, "
                                 "5 covered text differs from the value, 6 code/severity not as documented"})
     if not fails and (corr_bad or text_bad) and not a.replay:
@@ -688,13 +830,19 @@ def main():
                        "note": "model and implementation disagree; the oracle found no failing diagnostic"}, no_input=True)
 
     layouts_dist = {"indent": {}, "multibyte_description": 0, "comment_in_front": 0, "files": {}, "controllers_per_project": {},
-                    "result_list_on_several_lines": 0, "twins_same_file": 0, "twins_other_file": 0}
+                    "result_list_on_several_lines": 0, "twins_same_file": 0, "twins_other_file": 0,
+                    "controllers_without_tag": 0, "controllers_without_tag_not_in_the_last_controller_file": 0,
+                    "validate_calls_per_pipeline": ROUNDS,
+                    "projects_with_a_conflict_on_a_receiver_that_has_other_diagnostics": sum(
+                        1 for o in outs if has_conflict_with_own(o))}
     for pr in projects:
         for r in pr["routes"]:
             layouts_dist["indent"][repr(r.get("indent", ""))] = layouts_dist["indent"].get(repr(r.get("indent", "")), 0) + 1
             layouts_dist["files"][str(r.get("file", 0))] = layouts_dist["files"].get(str(r.get("file", 0)), 0) + 1
             if c18layout.wrap_of(r):
                 layouts_dist["result_list_on_several_lines"] += 1
+            if r.get("conflict_of"):
+                layouts_dist["same_route_twice"] = layouts_dist.get("same_route_twice", 0) + 1
             if r.get("twin_of"):
                 first = next((x for x in pr["routes"] if x["name"] == r["twin_of"]), None)
                 same = first is not None and first.get("file", 0) == r.get("file", 0)
@@ -704,6 +852,12 @@ def main():
                     layouts_dist["multibyte_description"] += 1
                 if a_.get("before"):
                     layouts_dist["comment_in_front"] += 1
+        for c in pr["controllers"]:
+            if "tag" in c and c["tag"] is None:
+                last = max(x.get("file", 0) for x in pr["controllers"])
+                layouts_dist["controllers_without_tag"] += 1
+                if c.get("file", 0) != last:
+                    layouts_dist["controllers_without_tag_not_in_the_last_controller_file"] += 1
         n = str(len(pr["controllers"]))
         layouts_dist["controllers_per_project"][n] = layouts_dist["controllers_per_project"].get(n, 0) + 1
     res.coverage.update({
@@ -712,8 +866,10 @@ def main():
                 "random indentation, blank lines, free comments, multibyte descriptions, another comment in front of an "
                 "annotation on the same line, result lists spread over several lines (line feed after the parenthesis, "
                 "after any comma, in front of the closing parenthesis), the same annotated method a second time in the "
-                "project (same or other file), 2-3 files and several controllers per file; every diagnostic of "
-                "pipeline.Validate() is one evaluation; distinct by (code, message, file, range)",
+                "project (same or other file), 2-3 files and several controllers per file, controllers without a @Tag in "
+                "any of the files; every diagnostic of the first pipeline.Validate() is one evaluation; distinct by (code, "
+                "message, file, range); Validate() is called %d times on each pipeline and the later rounds are compared "
+                "with the first" % ROUNDS,
         "samples": [results[0]["od"][i]["d"] for i in range(min(3, len(results[0]["od"])))] if results else [],
         "traces_validated_against_impl": sum(len(rs["corr"]) for rs in results) - len(corr_bad),
         "disagreements": len(corr_bad) + len(text_bad), "property_oracle_failures": len(fails),
